@@ -86,13 +86,21 @@ func (p *c19Proxy) Lines() []string {
 }
 func (p *c19Proxy) Close() { p.ln.Close() }
 
-func c19FreePort() (int, error) {
-	ln, err := net.Listen("tcp", "127.0.0.1:0")
-	if err != nil {
-		return 0, err
+// c19FreePort picks a listen port for the binary below the kernel's ephemeral
+// range (every other harness process binds port 0, i.e. ephemeral ports, so a
+// port found free here is not handed to somebody else before the binary binds
+// it).  The port plays no role in any oracle.
+func c19FreePort(rng *kit.RNG) (int, error) {
+	for try := 0; try < 200; try++ {
+		port := 20000 + rng.Intn(12000)
+		ln, err := net.Listen("tcp", fmt.Sprintf(":%d", port))
+		if err != nil {
+			continue
+		}
+		ln.Close()
+		return port, nil
 	}
-	defer ln.Close()
-	return ln.Addr().(*net.TCPAddr).Port, nil
+	return 0, fmt.Errorf("no free port found")
 }
 
 // c19ChildOf finds the child of strace that executes exe.  (strace also forks
@@ -314,7 +322,7 @@ func TestVerifC19Binary(t *testing.T) {
 			pu := fmt.Sprintf("http://127.0.0.1:%d", proxyPort)
 			env = append(env, "HTTPS_PROXY="+pu, "https_proxy="+pu, "HTTP_PROXY="+pu, "http_proxy="+pu)
 		}
-		port, err := c19FreePort()
+		port, err := c19FreePort(rng)
 		if err != nil {
 			rep.Inconc(err.Error())
 			return
